@@ -2929,6 +2929,11 @@ func c12ErrSurfacesFromYield(call ssa.CallInstruction, tolerated []string) (bool
 }
 
 var c12Mutants = []Mutant{
+	// shared engine (errflow.go clobberedByDeferredStore): a deferred Close handler that assigns the named result unconditionally
+	{Name: "gz-close-clobbers-tar-error", File: "content/file/file.go",
+		Old:    "\t\tcloseErr := gz.Close()\n\t\tif err == nil {\n\t\t\terr = closeErr\n\t\t}",
+		New:    "\t\terr = gz.Close()",
+		Expect: "C12.R1.descriptor-describes-bytes"},
 	// R1
 	{Name: "descriptor-digest-of-tar-stream", File: "content/file/file.go",
 		Old: "\tgzDigest := gzDigester.Digest()", New: "\tgzDigest := tarDigester.Digest()",
